@@ -3,6 +3,7 @@ package main
 // accept.go — A4: accept-loop shape (DESIGN.md §3), used by C02, C14, C15.
 
 import (
+	"go/token"
 	"fmt"
 	"go/types"
 	"sort"
@@ -367,8 +368,48 @@ func ruleAcceptLoopNotOccupied(w *World, r *Report, rule string, kinds map[strin
 				}
 			}
 		}
+		// the loop itself (and what it calls synchronously) must not park on a channel / wait group either:
+		// whoever would wake it up is another connection's goroutine
+		nchan := 0
+		var scan func(fn *ssa.Function, inLoop func(b *ssa.BasicBlock) bool, depth int, via string)
+		seenFn := map[*ssa.Function]bool{}
+		scan = func(fn *ssa.Function, inLoop func(b *ssa.BasicBlock) bool, depth int, via string) {
+			for _, b := range fn.Blocks {
+				if !inLoop(b) {
+					continue
+				}
+				for _, in := range b.Instrs {
+					what := ""
+					switch x := in.(type) {
+					case *ssa.Send:
+						what = "sends on a channel"
+					case *ssa.UnOp:
+						if x.Op == token.ARROW {
+							what = "receives from a channel"
+						}
+					case *ssa.Select:
+						if x.Blocking {
+							what = "blocks in a select"
+						}
+					case *ssa.Call:
+						if f := sCallee(x); f != nil && f.Pkg() != nil && f.Pkg().Path() == "sync" && f.Name() == "Wait" {
+							what = "waits on a sync." + recvNamed(f).Obj().Name()
+						}
+						if sc := x.Call.StaticCallee(); sc != nil && inModule(sc) && depth < 2 && !seenFn[sc] && len(sc.Blocks) > 0 {
+							seenFn[sc] = true
+							scan(sc, func(*ssa.BasicBlock) bool { return true }, depth+1, via+sc.Name()+" -> ")
+						}
+					}
+					if what != "" {
+						nchan++
+						bad = fmt.Sprintf("%s: the accept loop %s%s: until some other connection's goroutine lets it continue, no further peer/stream is accepted (a bound on concurrent connections makes every open connection, even an idle one, delay the next)", w.Pos(in.Pos()), via, what)
+					}
+				}
+			}
+		}
+		scan(al.Fn, func(b *ssa.BasicBlock) bool { return al.Loop[b] }, 0, "")
 		r.Check(bad == "", rule, key, pos,
-			fmt.Sprintf("%d synchronous and %d goroutine call(s) receive the accepted connection; no synchronous one can wait for the peer", nsync, nasync), bad,
+			fmt.Sprintf("%d synchronous and %d goroutine call(s) receive the accepted connection; no synchronous one can wait for the peer; no channel/wait-group parking in the loop", nsync, nasync), bad,
 			"sync_calls", nsync, "go_calls", nasync)
 	}
 	return n
